@@ -533,3 +533,98 @@ class RegionInit:
         yield 'xs / ys are the built edges', z3.BoolVal(f.get('xs') is _v['xs'] and f.get('ys') is _v['ys'])
         b = f.get('bounds')
         yield 'bounds == [origin, origin + dh]', z3.BoolVal(isinstance(b, Arr) and b.ndim == 2)
+
+
+# ---------------------------------------------------------------------------------------------------
+# get_cartesian: the values of the cells laid out on the bounding-box lattice, NaN where there is no active cell
+# ---------------------------------------------------------------------------------------------------
+from pyvc.contracts import LoopInv      # noqa: E402
+
+
+class _CartLoop(LoopInv):
+    """results after the rows [0, i) (and, inside row i, the columns [0, j)): position (r, cc) holds data[cellat(r, cc)] if the
+    lattice point is unmasked, NaN otherwise"""
+    inner = False
+
+    def havoc(self, I, fr, i, it):
+        L = I.ctx.ghost['cart_lattice']
+        R = I.ctx.fresh_fun('results', z3.IntSort(), z3.IntSort(), z3.RealSort())
+        NF = I.ctx.fresh_fun('results_is_nan', z3.IntSort(), z3.IntSort(), z3.BoolSort())
+        self.R, self.NF = R, NF
+        res = Arr((L.ny, L.nx), lambda ix: R(to_z3(ix[0]), to_z3(ix[1])), 'float64', label='results')
+        res.nan_f = lambda ix: NF(to_z3(ix[0]), to_z3(ix[1]))
+        fr.locals['results'] = res
+        fr.locals.pop('idx', None)
+        if not self.inner:
+            fr.locals.pop('j', None)
+
+    def done(self, fr, i, r, cc):
+        i = to_z3(i)
+        if self.inner:
+            row = to_z3(fr.locals['i'])
+            return z3.Or(r < row, z3.And(r == row, cc < i))
+        return r < i
+
+    def clause(self, I, fr, res, r, cc):
+        L = I.ctx.ghost['cart_lattice']
+        data = I.ctx.ghost['cart_data']
+        M = L.bbox_mask.fun
+        nf = getattr(res, 'nan_f', None)
+        isn = to_z3(nf((r, cc))) if nf is not None else z3.BoolVal(False)
+        return z3.And(isn == (M(r, cc) != 0), z3.Implies(M(r, cc) == 0, to_real(res.f((r, cc))) == to_real(data.f((L.cellat(r, cc),)))))
+
+    def inv(self, I, fr, i, it):
+        L = I.ctx.ghost['cart_lattice']
+        res = fr.locals['results']
+        inbox = lambda r, cc: z3.And(0 <= r, r < L.ny, 0 <= cc, cc < L.nx)
+        if self.mode == 'prove':
+            r, cc = I.ctx.fresh_int('r!sk'), I.ctx.fresh_int('c!sk')
+            yield 'positions written so far hold the value of their cell, NaN where no active cell lies', z3.Implies(
+                z3.And(inbox(r, cc), self.done(fr, i, r, cc)), self.clause(I, fr, res, r, cc))
+        else:
+            r, cc = z3.Ints('r!inv c!inv')
+            yield 'spec', z3.ForAll([r, cc], z3.Implies(z3.And(inbox(r, cc), self.done(fr, i, r, cc)), self.clause(I, fr, res, r, cc)),
+                                    patterns=[self.R(r, cc), self.NF(r, cc)])
+
+
+class _CartInner(_CartLoop):
+    inner = True
+
+
+@contract
+class GetCartesian:
+    qualname = 'csep.core.regions.CartesianGrid2D.get_cartesian'
+    case = 'region satisfying RI, one value per cell'
+    properties = ('C01',)
+    loops = {0: _CartLoop(), 1: _CartInner()}
+
+    def params(c):
+        L = Lattice(c)
+        data = c.arr('data', 'float64', n=L.N)
+        c.ctx.ghost['cart_lattice'] = L
+        c.ctx.ghost['cart_data'] = data
+        return dict(self=L.obj(c), data=data, _L=L)
+
+    def requires(c, self, data, _L):
+        return _L.RI()
+
+    def ensures(c, r, self, data, _L):
+        L = _L
+        ok = isinstance(r, Arr) and r.ndim == 2
+        yield 'returns a 2-d array', z3.BoolVal(ok)
+        if not ok:
+            return
+        yield 'of the shape of the bounding box (rows x columns)', z3.And(to_z3(r.shape[0]) == L.ny, to_z3(r.shape[1]) == L.nx)
+        i = c.ctx.fresh_int('cell!sk')
+        nf = getattr(r, 'nan_f', None)
+        ini = z3.And(0 <= i, i < L.N)
+        yield 'an active cell shows its value at its lattice position (row = y index, column = x index)', z3.Implies(
+            z3.And(ini, L.active(i)), z3.And(to_real(r.f((L.cy(i), L.cx(i)))) == to_real(data.f((i,))),
+                                             z3.Not(to_z3(nf((L.cy(i), L.cx(i))))) if nf is not None else z3.BoolVal(True)))
+        rr, cc = c.ctx.fresh_int('r!sk'), c.ctx.fresh_int('c!sk')
+        M = L.bbox_mask.fun
+        yield 'a lattice position without an active cell (hole, flagged cell) shows NaN', z3.Implies(
+            z3.And(0 <= rr, rr < L.ny, 0 <= cc, cc < L.nx, M(rr, cc) != 0), to_z3(nf((rr, cc))) if nf is not None else z3.BoolVal(False))
+
+    def raises(c, exc, self, data, _L):
+        return None
